@@ -74,7 +74,6 @@ var stdOwner = sync.OnceValue(func() map[string]string {
 	return m
 })
 
-
 func (c trackCase) Oracle(out string) string {
 	if out == "panic" {
 		return "the import tracker panicked"
